@@ -203,4 +203,16 @@ theorem drainServer_frame_prefix {m : Int} {p : Bytes} (hp : Legal m p) (k : Nat
     rw [if_neg (by omega), if_pos (by omega)] at e
     exact drainServer_less e
 
+/-- every connection of a session is handled as if it were the first one -/
+theorem session_eq_map (side : Side) (m : Int) :
+    ∀ (conns : List (List Bytes)) (prev : Conn),
+      session side m prev conns = conns.map (feedAll side m Conn.init) := by
+  intro conns
+  induction conns with
+  | nil => intro _; rfl
+  | cons cs rest ih =>
+    intro prev
+    simp only [session, reconnect, List.map_cons]
+    rw [ih]
+
 end Tars.Frame
